@@ -345,9 +345,10 @@ func (g *swGen) packetOf(e *swExp, prefix string, choice int) []byte {
 		}
 		if useHbh {
 			setNext(0)
-			chain = append(chain, nb().u8(nextAfterHbh, 0).raw(g.hbhOptions(e, p+".HbhHeader")).b...)
+			hel, ob := g.hbhOptions(e, p+".HbhHeader")
+			chain = append(chain, nb().u8(nextAfterHbh, hel).raw(ob).b...)
 			e.num(p+".HbhHeader.NextHeader", uint64(nextAfterHbh))
-			e.num(p+".HbhHeader.HEL", 0)
+			e.num(p+".HbhHeader.HEL", uint64(hel))
 		}
 		if useFrag {
 			setNext(44)
@@ -421,20 +422,38 @@ func (g *swGen) packetOf(e *swExp, prefix string, choice int) []byte {
 	return x.b
 }
 
-// hbhOptions: the 6 option bytes of a minimal hop-by-hop header: PadN(4) | Pad1, PadN(3) | router alert, Pad1, Pad1
-func (g *swGen) hbhOptions(e *swExp, p string) []byte {
+// hbhOptions: the option bytes of a hop-by-hop header and its Hdr Ext Len. Usually the minimal header (6 option bytes:
+// PadN(4) | Pad1, PadN(3) | router alert, Pad1, Pad1); one time in five a long one (256 bytes and more) filled with a
+// jumbo-payload option, PadN options of up to 255 bytes and Pad1 bytes.
+func (g *swGen) hbhOptions(e *swExp, p string) (int, []byte) {
 	type opt struct {
 		ty, ln int
 		data   []byte
 	}
 	var opts []opt
-	switch g.r.Intn(3) {
+	hel := 0
+	switch g.r.Intn(5) {
 	case 0:
 		opts = []opt{{1, 4, make([]byte, 4)}}
-	case 1:
+	case 1, 2:
 		opts = []opt{{0, 0, nil}, {1, 3, make([]byte, 3)}}
-	default:
+	case 3:
 		opts = []opt{{5, 2, []byte{0, byte(g.r.Intn(3))}}, {0, 0, nil}, {0, 0, nil}}
+	default:
+		hel = []int{30, 31, 32, 40, 63, 64}[g.r.Intn(6)]
+		rem := 8*(hel+1) - 2
+		opts = append(opts, opt{0xc2, 4, g.bytes(4)})
+		rem -= 6
+		for rem > 0 {
+			if rem == 1 || g.r.Intn(5) == 0 {
+				opts = append(opts, opt{0, 0, nil})
+				rem--
+				continue
+			}
+			l := g.r.Intn(min(rem-1, 256))
+			opts = append(opts, opt{1, l, make([]byte, l)})
+			rem -= 2 + l
+		}
 	}
 	x := nb()
 	for i, o := range opts {
@@ -449,7 +468,7 @@ func (g *swGen) hbhOptions(e *swExp, p string) []byte {
 		e.raw(q+".Data", o.data)
 	}
 	e.count(p+".Options", len(opts))
-	return x.b
+	return hel, x.b
 }
 
 // ipv6AnyOrder: hop-by-hop, routing and fragment headers (each at most once) in a random order before the payload
@@ -467,15 +486,20 @@ func (g *swGen) ipv6AnyOrder(e *swExp, prefix string, x *msgBB, tc, fl, hl int, 
 		}
 		switch k {
 		case 0:
-			chain = append(chain, nb().u8(next, 0).raw(g.hbhOptions(e, p+".HbhHeader")).b...)
+			hel, ob := g.hbhOptions(e, p+".HbhHeader")
+			chain = append(chain, nb().u8(next, hel).raw(ob).b...)
 			e.num(p+".HbhHeader.NextHeader", uint64(next))
-			e.num(p+".HbhHeader.HEL", 0)
+			e.num(p+".HbhHeader.HEL", uint64(hel))
 		case 43:
-			seg := g.bytes(16)
+			nseg := 1
+			if g.r.Intn(4) == 0 {
+				nseg = []int{15, 16, 17, 32}[g.r.Intn(4)] // 16 addresses and more: a header of 256+ bytes
+			}
+			seg := g.bytes(16 * nseg)
 			left := g.r.Intn(2)
-			chain = append(chain, nb().u8(next, 2, 0, left).z(4).raw(seg).b...)
+			chain = append(chain, nb().u8(next, 2*nseg, 0, left).z(4).raw(seg).b...)
 			e.num(p+".RoutingHeader.NextHeader", uint64(next))
-			e.num(p+".RoutingHeader.HEL", 2)
+			e.num(p+".RoutingHeader.HEL", uint64(2*nseg))
 			e.num(p+".RoutingHeader.SegmentsLeft", uint64(left))
 			e.raw(p+".RoutingHeader.Data", append(make([]byte, 4), seg...))
 		default:
@@ -794,7 +818,11 @@ func init() {
 			per = 200
 		}
 		for k := 0; k < swKinds; k++ {
-			for i := 0; i < per; i++ {
+			n := per
+			if k == 7 || k == 12 {
+				n = 8 * per // packet-in (every payload decoder) and flow-stats replies (matches, instructions, actions)
+			}
+			for i := 0; i < n; i++ {
 				fr, exp := g.message(k)
 				spare := 0
 				if i%2 == 1 {
